@@ -187,6 +187,21 @@ macro_rules | `(tactic| safe_leaf) => `(tactic| exact decScopeAttrs_safe _)
 def CodecOk (C : DecCodec) : Prop :=
   ∀ b e, C.truncFloat b = .error e → e = .overflowError ∨ e = .valueError
 
+/-- the hypothesis is a theorem for the concrete conversion: `int(float)` raises OverflowError (inf) or
+    ValueError (nan) and nothing else -/
+theorem truncF64_errors (b : UInt64) (e : PyExc) (h : truncF64 b = .error e) : e = .overflowError ∨ e = .valueError := by
+  unfold truncF64 at h
+  dsimp only at h
+  split at h
+  · split at h
+    · cases h; exact Or.inl rfl
+    · cases h; exact Or.inr rfl
+  · cases h
+
+theorem concreteCodec_ok (C : DecCodec) : CodecOk (concreteCodec C) := by
+  intro b e h
+  exact truncF64_errors b e h
+
 theorem pyIntE_safe [AllowsV P] (s : Str) : Safe P (pyIntE s) := by
   unfold pyIntE; safe
 macro_rules | `(tactic| safe_leaf) => `(tactic| exact pyIntE_safe _)
